@@ -122,6 +122,14 @@ def cfg : P (RatioCfg ℚ) := do
          alternative := alternative, confidence_level := cl, equal_var := ev, use_t := ut,
          alpha := alpha, ratio := ratio, power := power }
 
+def srcfg : P (SRCfg ℚ) := do
+  let kind ← str
+  let a ← rat
+  let b ← rat
+  let method ← str
+  let corr ← bool
+  pure { ratio := if kind = "scalar" then .scalar a else .mapping a b, method := method, correction := corr }
+
 def showResult (r : MeanResult ℚ) : String :=
   " ".intercalate [showRat r.control, showRat r.treatment, showRat r.effect_size,
     showBound r.effect_size_ci_lower, showBound r.effect_size_ci_upper,
